@@ -5,6 +5,7 @@ class C09(TieCheck):
     pid = "C09"
     area = "Route"
     props = ["Props_C09.v"]
+    coq_targets = ["Corr.vo"]
     harness = "c01"
     extra_trust = ["model M1: coq/Route/Lookup.v lbd/lookup_by_domain/roots_lookup; specification: Spec.spec_lookup (whole-host match, path-only fallback)",
                    "port / trailing-dot stripping is netutil.StripHostPort run by the harness (oracle input to model and spec)"]
